@@ -70,6 +70,14 @@ def gen_history(rng: random.Random, nops: typing.Optional[int] = None) -> list[d
                     'lose': None} for _ in range(rng.randint(10, 12)))
         ops.append({'op': 'read', 'project': ops[0]['project'], 'rel': 0, 'gen': rng.randint(0, 11)})
         nops = len(ops) + rng.randint(0, 2)
+    if rng.random() < 0.2:
+        # swarm: a second tenant's registry appears early; the (uncrashed) processes of the history keep reading both
+        ops[0]['crash'] = None
+        ops.append({**train(), 'project': ops[0]['project'], 'crash': None, 'lose': None, 'ioerr': None})
+        ops.append({'op': 'backup'})
+        ops.extend({**train(), 'project': ops[0]['project'], 'crash': None, 'lose': None, 'ioerr': None}
+                   for _ in range(rng.randint(1, 3)))
+        nops = len(ops) + rng.randint(0, 3)
     if rng.random() < 0.15:  # swarm: two trainers of different releases in two processes, commits interleaved
         first = ops[0]
         first['crash'] = None
@@ -83,9 +91,11 @@ def gen_history(rng: random.Random, nops: typing.Optional[int] = None) -> list[d
         ops.append({'op': 'commit', 'slot': 0, 'crash': None, 'interleave': None})
         nops = len(ops) + rng.randint(0, 3)
     while len(ops) < nops:
-        kind = rng.choices(['publish', 'train', 'restart', 'read', 'mount', 'train_unknown', 'prune', 'begin', 'commit'],
-                           [3, 6, 1.5, 1, 0.7, 0.3, 0.5, 1.6, 2.2])[0]
-        if kind == 'publish':
+        kind = rng.choices(['publish', 'train', 'restart', 'read', 'mount', 'train_unknown', 'prune', 'begin', 'commit',
+                            'backup'], [3, 6, 1.5, 1, 0.7, 0.3, 0.5, 1.6, 2.2, 0.6])[0]
+        if kind == 'backup':
+            ops.append({'op': 'backup'})
+        elif kind == 'publish':
             ops.append(publish())
         elif kind == 'train':
             ops.append(train())
@@ -212,6 +222,8 @@ class Run:
         self.nchild = 0
         self.slots: dict[int, dict] = {}  # open training handles: slot -> {child, project, ver, states}
         self.other: typing.Optional[boxmod.Child] = None  # a second live process (overlapping trainers)
+        self.mirror: typing.Optional[tuple] = None  # (directory name, model at the time of the copy)
+        self.nmirror = 0
         self.crash_site = 'main-line'
 
     # -- helpers -----------------------------------------------------------------------------
@@ -339,6 +351,18 @@ class Run:
             if diffs:
                 klass, detail = worst(diffs)
                 raise base.Violation(klass, f'{where}: warm (same-process) reader: {detail}')
+            if self.mirror is not None:
+                # the same process also reads the backup copy and the live registry through short-lived registry objects
+                for target, model in ((self.mirror[0], self.mirror[1]), ('registry', self.model)) * 3:
+                    res = self.child.call('observe', {'where': target})
+                    self.stats['reads_through_short_lived_registry_objects'] += 1
+                    if not res.ok:
+                        raise base.Violation('reader-failed', f'{where}: reader of {target}: {res.exc} {res.value}')
+                    diffs = diff(res.value, expected(model))
+                    if diffs:
+                        klass, detail = worst(diffs)
+                        raise base.Violation(klass, f'{where}: same process, registry object made for this read over '
+                                                    f'{"the other registry " + target if target != "registry" else "the main registry"}: {detail}')
         self.check_append_only(where)
         self.protect()
 
@@ -455,6 +479,34 @@ class Run:
             except base.Violation as err:
                 self.violations.append({**err.as_dict(), 'site': f'{op["op"]}:{op.get("kind", "")}:{site.split(" cut@")[0]}',
                                         'replay_ops': self.trace + [trace_op]})
+        # the same points once more as I/O errors: the call fails (a write after `cut` bytes) and the process lives on -
+        # exceptions unwind, clean-up code runs. Still: the previous or the complete new content, nothing in between
+        epts = [p for p in pts if p['at'] <= len(dry.oplog)]
+        if self.enum != 'all' and len(epts) > 10:
+            epts = sorted(self.enum_rng.sample(epts, 10), key=lambda p: (p['at'], p['cut'] or 0))
+        for point in epts:
+            self.box.restore(snap)
+            self.model = copy.deepcopy(before)
+            self.digests = dict(saved_digests)
+            what = dry.oplog[point['at'] - 1]
+            site = f'{what[1]} {_norm(what[2])}' + (f' after {point["cut"]}/{what[3]} bytes' if point['cut'] else '')
+            where = f'op{idx} {label} with an I/O error in [{site}]'
+            res = self.oneshot(wseed, name, args, {**point, 'error': True})
+            self.stats['write_error_points'] += 1
+            self.stats[f'fault:io-error-in-{what[1]}'] += 1
+            try:
+                if res.status not in ('ok', 'exc'):
+                    raise base.HarnessError(f'{where}: {res.status} {res.exc}')
+                branch = self.settle(where, before, after)
+                if res.ok and branch == 'before':
+                    raise base.Violation('verdict-mismatch', f'{where}: reported success but nothing was committed')
+                self.check_append_only(where)
+                self.shapes.add((op['op'], op.get('kind'), len(op.get('states', [])), f'io-error {site}', False, branch,
+                                 self.tree_shape()))
+            except base.Violation as err:
+                self.violations.append({**err.as_dict(), 'site': f'{op["op"]}:{op.get("kind", "")}:io-error {what[1]} '
+                                                                 f'{_norm(what[2])}',
+                                        'replay_ops': self.trace + [{**op, 'crash': {**point, 'error': True, 'retry': False}}]})
         # the same for transient I/O errors: every directory listing the operation makes fails once
         listings = list(range(1, dry.meta.get('listings', 0) + 1))
         if self.enum != 'all' and len(listings) > 8:
@@ -495,6 +547,32 @@ class Run:
                 self.child = None
             self.trace.append(op)
             self.stats['restarts'] += 1
+            return
+        if kind == 'backup':
+            # another tenant's registry appears next to the main one - same project and release names, other content -
+            # and the processes of this history read both, through registry objects made per read that come and go
+            self.trace.append(op)
+            if self.registry == 'volatile' or not any(self.model.values()):
+                return
+            self.nmirror += 1
+            name = f'tenant{self.nmirror}'
+            rng = random.Random(self.seed * 31 + idx)
+            tenant: dict = {}
+            with boxmod.Child(self.box.root, OPTABLE, self.seed * 101 + idx, env={'C05_ROOTNAME': name}) as child:
+                for project, rels in sorted(self.model.items()):
+                    for ver in sorted(rels, key=vkey)[:2]:
+                        res = child.call('publish', {'package': self.build_package(project, ver, 'dir', 1)})
+                        if not res.ok:
+                            raise base.HarnessError(f'tenant publish failed: {res.value}')
+                        gens = tenant.setdefault(project, {}).setdefault(ver, {'gens': {}})['gens']
+                        for gen in range(1, rng.randint(1, 2) + 1):
+                            states = [rng.randbytes(5).hex() for _ in range(rng.randint(1, 3))]
+                            res = child.call('train', {'project': project, 'release': ver, 'states': states})
+                            if not res.ok or res.value != gen:
+                                raise base.HarnessError(f'tenant train failed: {res.value}')
+                            gens[gen] = states
+            self.mirror = (name, tenant)
+            self.stats['op:second-registry'] += 1
             return
         if kind == 'begin':
             self.trace.append(op)
@@ -642,6 +720,8 @@ class Run:
         if crash and after is not None:
             if 'at' in crash:
                 resolved = {'at': crash['at'], 'cut': crash.get('cut'), 'retry': crash.get('retry', False)}
+                if crash.get('error'):
+                    resolved['error'] = True
             else:
                 snap = self.box.snapshot()
                 dry = self.oneshot(self.child_seed(), name, args)
@@ -661,8 +741,21 @@ class Run:
         ioerr = op.get('ioerr') if not resolved and after is not None else None
         if ioerr:
             where += f' [transient I/O error in its directory listing #{ioerr}]'
-        res = self.incarnation().call(name, args, {'at': resolved['at'], 'cut': resolved['cut']} if resolved
+        res = self.incarnation().call(name, args, {'at': resolved['at'], 'cut': resolved['cut'],
+                                                   'error': bool(resolved.get('error'))} if resolved
                                       else {'ioerr': ioerr} if ioerr else None)
+        if resolved and resolved.get('error') and res.status in ('ok', 'exc'):
+            self.trace.append(executed)
+            self.stats[f'op:{kind}'] += 1
+            self.crash_site = f'{kind}:io-error'
+            where += ' [as an I/O error, the process lives on]'
+            branch = self.settle(where, before, after)
+            self.stats[f'settled:{branch}'] += 1
+            if res.ok and branch == 'before':
+                raise base.Violation('verdict-mismatch', f'{where}: reported success but nothing was committed')
+            self.check_append_only(where)
+            self.protect()
+            return
         if ioerr and any(e[1] == 'io-error-in-listing' for e in res.oplog):
             # the fault fired: the operation may fail (then nothing may have changed) or may have got through; either way
             # the registry is the old or the complete new content and every committed file is untouched
